@@ -110,4 +110,28 @@ example : alookup ((writes (LW.new 2) ["a", "", "b"]).register 1).handlers 1 = s
 example : alookup (writes ((writes (LW.new 3) ["1", "2", "3", "4", "5"]).register 7) ["6"]).handlers 7
     = some ["3", "4", "5", "6"] := by decide
 
+/-- **A monitor attaching while a line is logged.** `RegisterHandler` and `Write` each hold the writer's lock over
+their whole body (`C29_logwriter_skeleton`, regenerated from the source), so a concurrent attach and write are
+serialised.  In either order the handler ends with some suffix of the older lines followed by the new line: the
+new line never overtakes a buffered one. -/
+theorem C29_attach_race (cap : Nat) (hc : 0 < cap) (pre : List String) (t : String) (h : Nat) :
+    (∃ k, alookup (((writes (LW.new cap) pre).register h).write t).handlers h = some (pre.drop k ++ [t])) ∧
+    (∃ k, alookup (((writes (LW.new cap) pre).write t).register h).handlers h = some (pre.drop k ++ [t])) := by
+  constructor
+  · exact ⟨pre.length - cap, C29_monitor_backlog cap hc pre [t] h⟩
+  · refine ⟨pre.length + 1 - cap, ?_⟩
+    have hw : (writes (LW.new cap) pre).write t = writes (LW.new cap) (pre ++ [t]) := by
+      simp [writes, List.foldl_append]
+    have := C29_monitor_backlog cap hc (pre ++ [t]) [] h
+    simp only [writes, List.foldl_nil] at this
+    rw [hw]
+    simp only [writes] at this ⊢
+    rw [this]
+    simp only [List.length_append, List.length_cons, List.length_nil, List.append_nil]
+    rw [List.drop_append_of_le_length (by omega)]
+
+-- attach race, concrete: ring of 2 holding three lines, "n" logged while monitor 1 attaches
+example : alookup (((writes (LW.new 2) ["a", "b", "c"]).register 1).write "n").handlers 1 = some ["b", "c", "n"]
+    ∧ alookup (((writes (LW.new 2) ["a", "b", "c"]).write "n").register 1).handlers 1 = some ["c", "n"] := by decide
+
 end SerfProofs.C29
